@@ -4,6 +4,7 @@ set -e
 cd "$(dirname "$0")"
 export CARGO_NET_OFFLINE=true
 python3 tools/extract.py
+python3 tools/extract_locks.py
 (cd lean && lake build GrafeoModel gdriver)
 [ -f harness/Cargo.lock ] || cp /repo/Cargo.lock harness/Cargo.lock
 (cd harness && cargo build --offline)
